@@ -497,6 +497,18 @@ pub fn scenarios(thorough: bool) -> Vec<(String, Scenario)> {
             ));
         }
     }
+    // stored blocks above 64 KiB, 256 KiB and 1 MiB of incompressible bytes, written and read under
+    // every codec-independent path (round 9: transfer loops that exist only above a size threshold)
+    for (tag, vlen) in [("64k", 70_000usize), ("256k", 300_000), ("1m", 1_100_000)] {
+        if tag == "1m" && !thorough {
+            continue;
+        }
+        for codec in [0u8, 5] {
+            let file = FileSpec::new(FileCfg::layout(Some(1024), None, 0).with_codec(codec, 0), EntrySpec::BigMiddle { vlen });
+            v.push((format!("write-bigblock-above-{tag}-codec{codec}"), Scenario::Write { file: file.clone() }));
+            v.push((format!("read-bigblock-above-{tag}-codec{codec}"), Scenario::Read { file, v1: false }));
+        }
+    }
     v.push(("merge-stream".into(), Scenario::Merge { masks: vec![0b0111, 0b1110, 0b0101], cfgs: vec![0, 1, 0], into_writer: false }));
     v.push(("merge-into-writer".into(), Scenario::Merge { masks: vec![0b1011, 0b0110, 0b1101], cfgs: vec![1, 0, 2], into_writer: true }));
     let scfg = |chunks: usize, realloc: bool| {
